@@ -85,6 +85,8 @@ def _restore_loops(f: Func, st: str) -> list[ast.For]:
 def rule_ctx(c: Ctx) -> RuleResult:
     r = RuleResult("CTX", "container context (blkIndent, listIndent, lineMax and every line-table cell a rule writes) holds its entry "
                           "value at every return of every block rule and of the block dispatcher")
+    c = c.normalised("rules_block/")
+    r.notes += c.norm_notes()
     K = _block_family(c)
     rule_funcs = {reg.func for reg in c.reg.rules["block"]}
     tok = c.p.func("parser_block.py:ParserBlock.tokenize")
@@ -449,6 +451,8 @@ class SaveModel:
 def rule_lock(c: Ctx) -> RuleResult:
     r = RuleResult("LOCK", "blockquote saves the line-table cells of every line it rewrites (in lockstep, one group per scanned line) and "
                            "its restore loop writes each table back from the component that saved it")
+    c = c.normalised("rules_block/")
+    r.notes += c.norm_notes()
     f = c.p.func("rules_block/blockquote.py:blockquote")
     st = f.node.args.args[0].arg
     r.functions = 1
